@@ -559,6 +559,16 @@ def parseOp (st : St) (op : List String) : Option (List Op × St) :=
 def step (st : St) (op impl : List String) : St × Verdict :=
   if st.abandoned then (st, .ok) else
   if (impl.headD "").startsWith "env:" then ({ st with abandoned := true }, .ok) else
+  if op = ["pushrace"] then
+    -- self-contained scenario with its own verdict (harness/cmd/streams/pushrace.go); the case ends here
+    match impl with
+    | ["ok"] => ({ st with abandoned := true }, .ok)
+    | [r] =>
+      if r.startsWith "bad:" then
+        ({ st with abandoned := true }, .oracle s!"C07: a track arrived on the server while the stream's delayed push was being distributed, and the subscriber that requested audio and video was never offered it: {r}")
+      else ({ st with abandoned := true }, .mismatch "ok")
+    | _ => ({ st with abandoned := true }, .mismatch "ok")
+  else
   match parseOp st op with
   | none => (st, .badop "streams: cannot parse op")
   | some (mops, st1) =>
